@@ -134,7 +134,18 @@ func intSpellings(n *big.Int) []string {
 	}
 	if n.Sign() >= 0 {
 		out = append(out, "+"+dec, "+"+signed(n, "0x", 16))
-		// the explicit plus sign with every other syntax
+	}
+	return out
+}
+
+// moreSpellings: the explicit plus sign with every other syntax, exponent
+// forms that keep every digit, leading zeros behind a base prefix. In the grid
+// these are read through the reduced target list gridTextTargets.
+func moreSpellings(n *big.Int) []string {
+	dec := n.String()
+	f := nearestFloat(n)
+	var out []string
+	if n.Sign() >= 0 {
 		out = append(out,
 			"+"+signed(n, "0X", 16), "+"+signed(n, "0o", 8), "+"+signed(n, "0", 8), "+"+signed(n, "0b", 2),
 			"+"+underscored(dec), "+"+signed(n, "0x_", 16),
@@ -142,7 +153,6 @@ func intSpellings(n *big.Int) []string {
 			"+00"+dec,
 		)
 	}
-	// exponent forms that keep every digit, leading zeros behind a base prefix and a sign
 	out = append(out, dec+"e0", dec+"e+0", dec+"E-0", dec+"0e-1", signed(n, "0x00", 16), signed(n, "0b0", 2), signed(n, "0o0", 8), signed(n, "0_", 8))
 	return out
 }
@@ -223,9 +233,15 @@ var miscStrings = []string{
 // the grid
 
 var (
-	gridOnce sync.Once
-	gridSrc  []Src
+	gridOnce    sync.Once
+	gridSrc     []Src
+	gridReduced = map[string]bool{} // string sources crossed with gridTextTargets only
 )
+
+func mustJSON(v interface{}) []byte {
+	b, _ := json.Marshal(v)
+	return b
+}
 
 func gridSources() []Src {
 	gridOnce.Do(func() {
@@ -311,6 +327,14 @@ func gridSources() []Src {
 		for _, s := range miscStrings {
 			add(srcS(s))
 		}
+		for _, n := range ints {
+			for _, s := range moreSpellings(n) {
+				if src := srcS(s); !seen[string(mustJSON(src))] {
+					add(src)
+					gridReduced[s] = true
+				}
+			}
+		}
 		for _, f := range []float64{math.MaxFloat32, f32Midpoint, math.MaxFloat64, math.SmallestNonzeroFloat64, maxSecondsF, 1e300} {
 			for _, fmtc := range []byte{'g', 'e', 'f', 'x'} {
 				add(srcS(strconv.FormatFloat(f, fmtc, -1, 64)), srcS(strconv.FormatFloat(-f, fmtc, -1, 64)))
@@ -340,6 +364,9 @@ func gridDeliveries(s Src) []Case {
 // textDeliveries: the ways a text reaches the setting besides the four of
 // gridDeliveries. They are crossed with the reduced target list gridTextTargets.
 func textDeliveries(s Src) []Case {
+	if s.K == "f" || s.K == "b" {
+		return nil // every float spelling of every boundary is among the string sources
+	}
 	text := s.text()
 	out := []Case{
 		{Src: s, Deliv: "resolver", PC: "env"},
@@ -347,21 +374,17 @@ func textDeliveries(s Src) []Case {
 		{Src: s, Deliv: "resolve-env"},
 		{Src: s, Deliv: "envcfg"},
 		{Src: s, Deliv: "default"},
+		{Src: s, Deliv: "alt"},
 	}
 	if _, ok := numeralValue(strings.TrimSpace(text)); !ok {
 		return out
 	}
 	// a numeral built from pieces: literal head + number/string/resolver tail, and all pieces referenced
 	for i, cut := range naturalCuts(text) {
-		out = append(out, Case{Src: s, Deliv: "pieces", Cuts: []int{cut}, Kinds: "ln"})
-		switch i % 3 {
-		case 0:
-			out = append(out, Case{Src: s, Deliv: "pieces", Cuts: []int{cut}, Kinds: "sn"})
-		case 1:
-			out = append(out, Case{Src: s, Deliv: "pieces", Cuts: []int{cut}, Kinds: "lr"})
-		case 2:
-			out = append(out, Case{Src: s, Deliv: "pieces", Cuts: []int{cut}, Kinds: "rl"})
+		if i == 0 {
+			out = append(out, Case{Src: s, Deliv: "pieces", Cuts: []int{cut}, Kinds: "ln"})
 		}
+		out = append(out, Case{Src: s, Deliv: "pieces", Cuts: []int{cut}, Kinds: []string{"sn", "lr", "rl", "nl", "ns"}[i%5]})
 	}
 	return out
 }
@@ -372,14 +395,19 @@ func textDeliveries(s Src) []Case {
 type tv struct{ tgt, variant string }
 
 var gridTextTargets = []tv{
-	{"int64", ""}, {"uint64", ""}, {"int64", "ptr-named"}, {"uint64", "ptr-named"}, {"int8", ""}, {"uint8", "named"},
-	{"int16", ""}, {"uint16", ""}, {"int32", "ptr"}, {"uint32", ""}, {"int", "named"}, {"uint", "ptr-set"},
-	{"float32", ""}, {"float64", "set"}, {"string", ""}, {"bool", ""}, {"duration", ""}, {"duration", "ptr"},
+	{"int64", ""}, {"uint64", ""}, {"int64", "ptr-named"}, {"uint64", "ptr-named"}, {"int8", "named"}, {"uint16", ""},
+	{"int32", "ptr"}, {"uint", "ptr-set"}, {"float32", ""}, {"float64", "set"}, {"string", ""}, {"bool", ""}, {"duration", "ptr"},
 }
+
+var gridTextGetters = []string{"int64", "uint64", "float64", "string"}
 
 func enumGrid(yield func(Case) bool) {
 	for _, s := range gridSources() {
-		for _, c := range gridDeliveries(s) {
+		ds := gridDeliveries(s)
+		if s.K == "s" && gridReduced[s.S] {
+			ds = nil
+		}
+		for _, c := range ds {
 			for i := range targetList {
 				t := &targetList[i]
 				for _, v := range t.variants() {
@@ -396,14 +424,18 @@ func enumGrid(yield func(Case) bool) {
 				}
 			}
 		}
-		for _, c := range textDeliveries(s) {
+		ts := textDeliveries(s)
+		if s.K == "s" && gridReduced[s.S] {
+			ts = append(gridDeliveries(s), ts...)
+		}
+		for _, c := range ts {
 			for _, t := range gridTextTargets {
 				c.Tgt, c.Var, c.Read = t.tgt, t.variant, "unpack"
 				if !yield(c) {
 					return
 				}
 			}
-			for _, g := range getterTargets {
+			for _, g := range gridTextGetters {
 				c.Tgt, c.Var, c.Read = g, "", "getter"
 				if !yield(c) {
 					return
@@ -496,9 +528,28 @@ const junk = "_xXoObB.eEpP+-0179 af,"
 // the fixed words, or a duration string.
 func genString(t *rapid.T, tg *tgtDesc) Src {
 	var s string
-	switch rapid.IntRange(0, 5).Draw(t, "strclass") {
+	switch rapid.IntRange(0, 7).Draw(t, "strclass") {
 	case 0:
 		return srcS(rapid.SampledFrom(miscStrings).Draw(t, "misc"))
+	case 6, 7: // an integer numeral of any magnitude: sign x base syntax x leading zeros / underscores
+		u := rapid.Uint64().Draw(t, "bits") >> uint(rapid.SampledFrom([]int{0, 0, 1, 10, 11, 32, 56, 0, 1}).Draw(t, "shift"))
+		if rapid.IntRange(0, 3).Draw(t, "near") == 0 {
+			u = genBig(t, tg).Uint64() // the low 64 bits of a number next to a boundary
+		}
+		n := new(big.Int).SetUint64(u)
+		syn := rapid.SampledFrom([]struct {
+			prefix string
+			base   int
+		}{{"", 10}, {"0x", 16}, {"0X", 16}, {"0o", 8}, {"0", 8}, {"0b", 2}, {"0B", 2}, {"0O", 8}, {"0x00", 16}, {"0_", 8}, {"0b_", 2}, {"00", 8}}).Draw(t, "syntax")
+		s = n.Text(syn.base)
+		if rapid.IntRange(0, 3).Draw(t, "underscores") == 0 && syn.base != 10 {
+			for i := len(s) - 4; i > 0; i -= 4 {
+				s = s[:i] + "_" + s[i:]
+			}
+		} else if syn.base == 10 && rapid.IntRange(0, 3).Draw(t, "underscores10") == 0 {
+			s = underscored(s)
+		}
+		s = rapid.SampledFrom([]string{"+", "-", "", "+"}).Draw(t, "sign") + syn.prefix + s
 	case 1: // duration strings near the limits
 		unit := rapid.SampledFrom([]struct {
 			u string
@@ -575,7 +626,7 @@ func genCase(t *rapid.T) Case {
 	default:
 		c.Src = genString(t, tg)
 	}
-	c.Deliv = rapid.SampledFrom([]string{"lit", "ref", "resolver", "pieces", "splice", "splice-val", "resolve-env", "lit", "envcfg", "default", "pieces", "resolver"}).Draw(t, "deliv")
+	c.Deliv = rapid.SampledFrom([]string{"lit", "ref", "resolver", "pieces", "splice", "splice-val", "resolve-env", "lit", "envcfg", "default", "alt", "pieces", "resolver"}).Draw(t, "deliv")
 	switch c.Deliv {
 	case "splice":
 		c.Cut = rapid.IntRange(0, len(c.Src.text())).Draw(t, "cut")
